@@ -163,7 +163,23 @@ func checkC09(r *Run) propMeta {
 	if newCtxCall == nil || len(def.Body.List) != 1 {
 		r.Fail("C09-O1-default-context", "DefaultCypherContext", def.Pos(), "DefaultCypherContext is not a single `return NewContext(filters...)`; the installed filter set cannot be read")
 	} else {
-		for _, a := range newCtxCall.Args {
+		// the filters are written at the call, or come spread from a same-package function whose whole body returns the
+		// list (`NewContext(readOnlyFilters()...)`)
+		filterArgs := newCtxCall.Args
+		if newCtxCall.Ellipsis.IsValid() && len(filterArgs) == 1 {
+			if lc, ok := ast.Unparen(filterArgs[0]).(*ast.CallExpr); ok && len(lc.Args) == 0 {
+				if lf := calleeOf(info, lc); lf != nil && lf.Pkg() == fe.Types {
+					if ld := decls[declKeyOf(lf)]; ld != nil && ld.Body != nil && len(ld.Body.List) == 1 {
+						if rs, ok := ld.Body.List[0].(*ast.ReturnStmt); ok && len(rs.Results) == 1 {
+							if cl, ok := ast.Unparen(rs.Results[0]).(*ast.CompositeLit); ok {
+								filterArgs = cl.Elts
+							}
+						}
+					}
+				}
+			}
+		}
+		for _, a := range filterArgs {
 			t := vm.visitorTypeOfExpr(a, 0)
 			if t == "" || vm.Types[t] == nil {
 				r.Fail("C09-O1-default-context", "DefaultCypherContext:arg", a.Pos(), "filter argument %s is not a visitor literal", exprString(r.Fset, a))
